@@ -45,6 +45,59 @@ def make_exc(kind: int, arg: int) -> Exception:
     return cls() if arg == 0 else cls("e", arg)
 
 
+# ---- large payloads: arguments / results far above any plausible size threshold of the serialisation layer.
+# A node may declare `blob` = {"kind": "list" | "str", "v": 1..9}: the call passes a 60 000-element int list
+# (~400 KB of JSON) or a 200 000-character string whose MIDDLE element encodes v - two blobs of one kind have the
+# same serialized length and agree everywhere else; the body adds the v it RECEIVES.  `bigres`: the task returns
+# its value inside a 60 000-element list (callers unwrap it), so results are large and alike, too.
+BLOB_N = 60000
+STR_N = 200000
+
+
+def make_blob(desc):
+    if not desc:
+        return None
+    if desc["kind"] == "list":
+        b = list(range(BLOB_N))
+        b[BLOB_N // 2] = 10000 + desc["v"]
+        return b
+    return "a" * (STR_N // 2) + str(desc["v"]) + "a" * (STR_N // 2 - 1)
+
+
+def blob_value(blob) -> int:
+    if blob is None:
+        return 0
+    try:
+        if isinstance(blob, str):
+            return int(blob[len(blob) // 2])
+        return int(blob[len(blob) // 2]) - 10000
+    except Exception:  # noqa: BLE001 - a mangled payload is an observation, not a crash
+        return -1
+
+
+def wrap_result(spec: dict, total: int):
+    if not spec.get("bigres"):
+        return total
+    r = [7] * BLOB_N
+    r[BLOB_N // 2] = 10000 + total
+    return r
+
+
+def unwrap(v):
+    if isinstance(v, list) and len(v) == BLOB_N:
+        return v[BLOB_N // 2] - 10000
+    return v
+
+
+def call_kwargs(c: dict) -> dict:
+    kw = {"spec": c}
+    if c.get("extra") is not None:
+        kw["extra"] = c["extra"]
+    if c.get("blob"):
+        kw["blob"] = make_blob(c["blob"])
+    return kw
+
+
 def key_of(c: dict) -> tuple:
     return (c["mr"], c["rf"], c.get("decl", "t"))
 
@@ -68,6 +121,8 @@ REG: Registry | None = None
 def spell(task, j: int, member: dict, common: bool = False):
     """the j-th element of a parallelized list, in one of the accepted spellings (dicts only next to common_args)"""
     extra = member.get("extra")
+    if member.get("blob"):
+        return call_kwargs(member)
     if common or task is None or j % 3 == 0:
         if task is None and not common and j % 2 == 1:
             return (member,) if extra is None else (member, extra)
@@ -88,15 +143,15 @@ def _run_stmt(reg: Registry, st: list, entry: dict) -> int:
     entry["stmts"].append({"op": op, "ids": [st[1]["id"]] if op in ("call", "fire", "direct") else [m["id"] for m in st[1]]})
     if op in ("call", "fire", "direct"):
         c = st[1]
-        kw = {"spec": c} if c.get("extra") is None else {"spec": c, "extra": c["extra"]}
+        kw = call_kwargs(c)
         entry["launched"].append(c["id"])
         if op == "direct":
-            return reg.direct[key_of(c)](**kw)
+            return unwrap(reg.direct[key_of(c)](**kw))
         inv = reg.plain[key_of(c)](**kw)
         reg.launched.append(inv)
         if op == "fire":
             return 0                      # result never requested
-        return inv.result
+        return unwrap(inv.result)
     members = st[1]
     shift = st[2] if len(st) > 2 else None
     c0 = members[0]
@@ -106,13 +161,13 @@ def _run_stmt(reg: Registry, st: list, entry: dict) -> int:
         params, common = group_params(task, members, shift)
         group = task.parallelize(params, common) if common else task.parallelize(params)
         reg.launched.extend(group.invocations)
-        return sum(group.results)         # order-insensitive aggregation
+        return sum(unwrap(r) for r in group.results)         # order-insensitive aggregation
     if op == "dpar":
         return reg.dpar[key_of(c0)](spec={"par": members, "shift": shift})
     raise AssertionError(op)
 
 
-def _body(fname: str, spec: dict, extra: int, shift: int):
+def _body(fname: str, spec: dict, extra: int, shift: int, blob=None):
     reg = REG
     assert reg is not None
     inv = reg.task_of[fname].invocation
@@ -122,7 +177,8 @@ def _body(fname: str, spec: dict, extra: int, shift: int):
     entry = {"node": spec.get("id", 0), "inv": inv_id, "attempt": k, "retries_seen": inv.num_retries,
              "launched": [], "stmts": [], "end": None, "mode": type(inv).__name__,
              "parent": getattr(reg.tls, "cur", None),
-             "args": [extra, shift], "declared": [spec.get("extra") or 0, spec.get("shift") or 0]}
+             "args": [extra, shift, blob_value(blob)],
+             "declared": [spec.get("extra") or 0, spec.get("shift") or 0, (spec.get("blob") or {}).get("v", 0)]}
     with reg.lock:
         entry["idx"] = len(reg.log)
         reg.log.append(entry)
@@ -133,13 +189,13 @@ def _body(fname: str, spec: dict, extra: int, shift: int):
         act = script[k - 1] if k - 1 < len(script) else spec["dflt"]
         if act[0] == 1:
             raise make_exc(act[1], act[2])
-        total = spec["base"] + extra + shift
+        total = spec["base"] + extra + shift + blob_value(blob)
         for st in spec["body"]:
             total = total + _run_stmt(reg, st, entry)
         if act[0] == 2:
             raise make_exc(act[1], act[2])
         entry["end"] = ["val", total]
-        return total
+        return wrap_result(spec, total)
     except Exception as ex:
         entry["end"] = ["exc", type(ex).__name__, list(ex.args)]
         raise
@@ -154,7 +210,7 @@ def _parallel_func(args: dict):
 
 
 def _aggregate(results) -> int:
-    return sum(results)
+    return sum(unwrap(r) for r in results)
 
 
 def fname(flavour: str, mr: int, rf: int, decl: str = "t") -> str:
@@ -164,8 +220,8 @@ def fname(flavour: str, mr: int, rf: int, decl: str = "t") -> str:
 def _define(flavour: str, mr: int, rf: int, decl: str) -> None:
     name = fname(flavour, mr, rf, decl)
 
-    def f(spec, extra=0, shift=0):
-        return _body(name, spec, extra, shift)
+    def f(spec, extra=0, shift=0, blob=None):
+        return _body(name, spec, extra, shift, blob)
 
     f.__name__ = f.__qualname__ = name
     f.__module__ = __name__
